@@ -68,9 +68,20 @@ def check_tree(root, model, CH, handles):
                 return KeyError
             cur = cur[p]
         return cur
+    # probe every path over the component names that occur in the model (the empty string is
+    # a legal component), depth 1..3
+    names = set('ab')
+
+    def collect(md):
+        for k_, v_ in md.items():
+            names.add(k_)
+            if isinstance(v_, dict):
+                collect(v_)
+    collect(model)
+    alphabet = sorted(names)[:5]
     paths = []
     for depth in (1, 2, 3):
-        for combo in itertools.product('ab', repeat=depth):
+        for combo in itertools.product(alphabet, repeat=depth):
             paths.append(combo)
     for path in paths:
         key = '/'.join(path)
@@ -271,6 +282,13 @@ def families(pid, tier):
             for combo in itertools.product(ops, repeat=k):
                 yield list(combo) + [('static',)]
         return
+    if pid == 'C11':
+        # keys with empty path components (the empty string is a legal component)
+        ekeys = ['/x', 'x', '', 'a//b', 'x/', '//x', 'a/']
+        eops = [('set', k, v) for k in ekeys for v in (('h', 0), ('h', 1), ('m', 0))]
+        for k in range(1, 3):
+            for combo in itertools.product(eops, repeat=k):
+                yield list(combo)
     for k in range(1, n + 1):
         for combo in itertools.product(ops, repeat=k):
             yield list(combo)
